@@ -1711,6 +1711,7 @@ type limitSink struct {
 	k        int
 	accepted int
 	short    bool
+	fullerr  bool // see Write
 	silent   bool // short writes WITHOUT an error (a sink that breaks the io.Writer contract)
 	at       int // the one write call (1-based) that is short
 	calls    int
@@ -1721,6 +1722,14 @@ var errSink = errors.New("scripted sink failure")
 
 func (s *limitSink) Write(p []byte) (int, error) {
 	s.calls++
+	if s.fullerr { // from call `at` on the destination takes every byte and reports an error all the same (a mirroring or syncing writer)
+		s.accepted += len(p)
+		if s.calls >= s.at {
+			s.hit = true
+			return len(p), errSink
+		}
+		return len(p), nil
+	}
 	if s.short { // short writes: accept half of every other write, as io.Writer allows with an error
 		if s.calls == s.at && len(p) > 1 {
 			n := len(p) / 2
@@ -2139,7 +2148,7 @@ func (rn *Runner) Run() {
 				r.Emit("out", "k", 0, "op", "osfile-"+kind, "ok", false, "err", werr != nil, "panic", pan != "", "n", n,
 					"accepted", accepted, "len", len(first), "id", 0, "faulted", true, "text", clipErr(werr, pan))
 			}
-		case "short", "shortnil":
+		case "short", "shortnil", "fullerr":
 			// every write call of the rendering is the short one in one run
 			probe := &limitSink{short: true, at: -1}
 			if pb, err := Build(sc.Prog, seed, 0, "", rn.TmpDir); err == nil {
@@ -2152,10 +2161,10 @@ func (rn *Runner) Run() {
 					rn.Infra = err
 					return
 				}
-				s := &limitSink{short: true, silent: f.Kind == "shortnil", at: at}
+				s := &limitSink{short: f.Kind != "fullerr", fullerr: f.Kind == "fullerr", silent: f.Kind == "shortnil", at: at}
 				n, werr, pan := safeWriteTo(fb.Msg, s)
 				fb.Close()
-				if s.accepted == len(first) { // that call carried a single byte: nothing was short
+				if s.accepted == len(first) && f.Kind != "fullerr" { // that call carried a single byte: nothing was short
 					continue
 				}
 				r.Emit("out", "k", at, "op", f.Kind, "ok", false, "err", werr != nil, "panic", pan != "", "n", n,
